@@ -60,7 +60,11 @@ FApply(pt, op, k) ==
     [] op.name \in PrepNames \ {"Coherent"} -> [pt EXCEPT ![XI(pt, m)] = 0, ![PI(pt, m)] = 0]
     [] op.name \in {"MeasureHomodyne", "MeasureFock", "MeasureHeterodyne"} ->
           \* a measurement is a barrier: interpreted as a fixed non-linear scramble of its mode
-          [pt EXCEPT ![XI(pt, m)] = (pt[XI(pt, m)] * pt[XI(pt, m)] + 3) % P, ![PI(pt, m)] = (pt[PI(pt, m)] + 1) % P]
+          \* (a homodyne measurement given as <<angle, select, has_select>> also scrambles by its angle and post-selection value:
+          \* measurements that differ in them are different operations)
+          LET extra == IF op.name = "MeasureHomodyne" /\ Len(op.p) >= 3
+                       THEN (Res(op.p[1][1]) + 2 * Res(op.p[1][2]) + (IF RIsZero(op.p[3]) THEN 0 ELSE Res(op.p[2]) + 1)) % P ELSE 0
+          IN  [pt EXCEPT ![XI(pt, m)] = (pt[XI(pt, m)] * pt[XI(pt, m)] + 3 + extra) % P, ![PI(pt, m)] = (pt[PI(pt, m)] + 1) % P]
 RECURSIVE FApplySeqFrom(_, _, _, _)
 FApplySeqFrom(pt, ops, k, i) == IF i > Len(ops) THEN pt ELSE FApplySeqFrom(FApply(pt, ops[i], k), ops, k, i + 1)
 FDenote(ops, probes, k) == [j \in 1 .. Len(probes) |-> FApplySeqFrom(probes[j], ops, k, 1)]
